@@ -193,6 +193,29 @@ theorem C10_nonflat (km : KM Val) (le : Val → Val → Bool) (tyOf : Val → Va
 theorem C10_encoded {Key : Type} (enc : FlatKey Val → Key) (hinj : Function.Injective enc)
     (k₁ k₂ : FlatKey Val) (h : k₁ ≠ k₂) : enc k₁ ≠ enc k₂ := fun he => h (hinj he)
 
+/-- **chained keymaps** (`inner + outer`): the inner keymap is handed the outer structured key as one
+object; its own structured key determines that object — whatever its flat/typed/sentinel settings,
+and whether or not the object is of a fast type — so chaining preserves discrimination (compose with
+`C10_encoded` for the two encoders) -/
+theorem C10_chain_inner_injective (km : KM Val) (le : Val → Val → Bool) (xty yty : Val) (fx fy : Bool) (x y : Val)
+    (h : chainInner km le xty fx x = chainInner km le yty fy y) : x = y := by
+  unfold chainInner at h
+  by_cases hf : km.flat = true
+  · simp only [hf, if_true, Sum.inl.injEq, encodeFlat, List.isEmpty_nil, if_true, sortedItems, isort, flatten,
+      List.flatMap_nil, List.map_nil, List.map_cons] at h
+    by_cases ht : km.typed = true
+    · simp only [ht, if_true, FlatKey.tup.injEq] at h
+      cases hm : km.mark <;> simp [markL, hm] at h <;> exact h.1
+    · simp only [ht] at h
+      cases fx <;> cases fy <;> simp at h <;> exact h
+  · have hf' : km.flat = false := by simpa using hf
+    simp only [hf', Bool.false_eq_true, if_false, Sum.inr.injEq, encrypt, NonFlatKey.mk.injEq, List.cons.injEq, and_true] at h
+    exact h.1
+
+/-- … and canonicalisation (C09): calls with the same outer structured key have the same chained key -/
+theorem C09_chain_congr (km : KM Val) (le : Val → Val → Bool) (xty : Val) (fx : Bool) (x y : Val) (h : x = y) :
+    chainInner km le xty fx x = chainInner km le xty fx y := by rw [h]
+
 section Examples
 def K0 : Consts Nat := { null := 0, star := 1, dstar := 2 }
 def fvar : Func Nat := { pos := [], varargs := true, kwonly := [], varkw := true }
